@@ -481,6 +481,7 @@ structure Store where
 inductive Op where
   | query (d : Nat) (k : Nat)            -- any of the read-only accessors, for every class of the diagram
   | access (d : Nat) (c : Nat) (k : Nat)  -- one read-only accessor for one class (`get_out_edges(C<c>)`, …)
+  | read (d : Nat)                        -- read EVERY public read accessor of diagram `d` (properties and query methods)
   | render (d : Nat) (withAssoc : Bool)  -- `_build_rxnode_tree` / `visualize`
   | copy (d : Nat)                        -- `copy.copy(diagram)`
   | sub (d : Nat) (withField : Bool)      -- `to_subdiagram_without_inherited_associations(include_field_name)`
@@ -497,6 +498,7 @@ that existed before. -/
 def stepOp (q : Quirks) (s : Store) : Op → Store × Bool
   | .query _ _ => (s, false)
   | .access _ _ _ => (s, false)
+  | .read _ => (s, false)
   | .render _ _ => (s, false)
   | .copy d =>
     (match s.diagrams[d]? with
@@ -553,6 +555,50 @@ def reported (g : Graph) : List Edge := g.nodes.flatMap (outEdges g)
 
 /-- every edge starts and ends at a node of the graph -/
 def Graph.Closed (g : Graph) : Prop := ∀ e ∈ g.edges, e.src ∈ g.nodes ∧ e.dst ∈ g.nodes
+
+/-! ### The accessor read-out
+
+Every public read accessor of `ClassDiagram` (`parent_map`, `all_ancestors`, `get_assoc_keys_by_source`,
+`get_out_edges`, `wrapped_classes`, …: whatever introspection finds) is, in the model, a function of the diagram's
+graph — its classes and edges — and of nothing else: no accessor has state of its own. `readTrace` is what a sequence
+of `read d` operations interleaved with any other operations observes for one such accessor: at each `read d` the
+value is compared with the value the previous `read d` returned. -/
+
+/-- `parent_map` as (child, parents) pairs for the nodes that have parents -/
+def parentMap (g : Graph) : List (Nat × List Nat) :=
+  g.nodes.filterMap fun v => if (parents g v).isEmpty then none else some (v, addAll [] (parents g v))
+
+/-- the accessors the model spells out (the theorem is about *any* function of the graph) -/
+structure Readout where
+  nodes : List Nat
+  parentMap : List (Nat × List Nat)
+  ancestors : List (Nat × List Nat)
+  keys : List (Nat × (Nat × Option FName))
+  keysWithField : List (Nat × (Nat × Option FName))
+  outEdges : List (Nat × List Edge)
+  deriving DecidableEq, Repr
+
+def readout (g : Graph) : Readout :=
+  { nodes := g.nodes, parentMap := parentMap g, ancestors := g.nodes.map (fun v => (v, allAncestors g v)),
+    keys := assocKeysBySource g false, keysWithField := assocKeysBySource g true,
+    outEdges := g.nodes.map (fun v => (v, outEdges g v)) }
+
+/-- for each operation: did a `read d` see a value different from the one the previous `read d` saw?
+`memo` = the values seen so far (newest first). -/
+def readTrace {α} [DecidableEq α] (acc : Graph → α) (q : Quirks) (s : Store) (memo : List (Nat × α)) :
+    List Op → List Bool
+  | [] => []
+  | op :: ops =>
+    let s' := (stepOp q s op).1
+    match op with
+    | .read d =>
+      (match s'.graphOf d with
+       | none => false :: readTrace acc q s' memo ops
+       | some g =>
+         (match memo.find? (fun p => p.1 == d) with
+          | some p => decide (p.2 ≠ acc g)
+          | none => false) :: readTrace acc q s' ((d, acc g) :: memo) ops)
+    | _ => false :: readTrace acc q s' memo ops
 
 /-- observation after a run: the diagrams whose accessor reports differ (as a set of edges) from their graph -/
 def misreported (s : Store) : List (Nat × List Edge) :=
